@@ -1239,12 +1239,17 @@ class Pool:
             raise WorkersJoined()
 
         cleaned, exitcodes = {}, {}
-        for i in reversed(range(len(self._pool))):
-            worker = self._pool[i]
+        # (over a copy: at shutdown the supervisor's last pass and the result
+        # handler may both be reaping)
+        for i, worker in reversed(list(enumerate(self._pool))):
             exitcode = worker.exitcode
             popen = worker._popen
             if popen is None or exitcode is not None:
                 # worker exited
+                try:
+                    self._pool.remove(worker)
+                except ValueError:
+                    continue    # the other thread reaped it meanwhile
                 debug('Supervisor: cleaning up worker %d', i)
                 if popen is not None:
                     worker.join()
@@ -1259,9 +1264,8 @@ class Pool:
                         exc_info=0,
                     )
                 self.process_flush_queues(worker)
-                del self._pool[i]
-                del self._poolctrl[worker.pid]
-                del self._on_ready_counters[worker.pid]
+                self._poolctrl.pop(worker.pid, None)
+                self._on_ready_counters.pop(worker.pid, None)
         if cleaned:
             all_pids = [w.pid for w in self._pool]
             for job in list(self._cache.values()):
